@@ -14,6 +14,7 @@ func init() { Registry["C14"] = c14 }
 
 func c14(r *Report) {
 	p := r.P
+	defer c14Audit4(r)
 	const dag = "network/dag"
 	r.Explanation = "Static decision of the structural conditions for at-least-once delivery to persistent subscribers: (1) in the admission write closure every successful path that admits the transaction saves the transaction event, and every successful path that stores a supplied payload saves the payload event — inside the write transaction, before commit; WritePayload saves its event in its transaction too; (2) subscribers are notified only from after-commit callbacks; (3) a job is deleted only in Finished, which is called only when the receiver reported completion (err nil ∧ finished), from the payload handler after the payload was written, or by the operator API; an unfinished notification increments the retry counter and persists the event; (4) persistent subscribers (vdr, vcr_vcs, vcr_revocations, nats, private) are registered with persistency; Network.Start resumes every notifier after the connection manager started; on resume an event is rescheduled unless its retry budget (maxRetries) is spent, and the retry budget arithmetic uses maxRetries; (5) Save schedules only events that are not yet stored, and only filtered-in ones."
 	r.NotDecided = []string{"retry timing / back-off arithmetic", "what happens at each crash instant (relies on go-stoabs transaction atomicity)", "idempotence of the receivers"}
